@@ -1098,6 +1098,52 @@ fn shrink_acc(t: &AccTrace) -> Vec<AccTrace> {
             c.n = NS[p - 1];
             out.push(c);
         }
+        // smaller capacity with every length rescaled so that its relation to the capacity is
+        // kept (exactly N stays exactly N', k bytes over stays k bytes over, shorter stays shorter)
+        for &n2 in NS[..p].iter().rev().take(6).chain(NS[..p.min(3)].iter()) {
+            let fit = |len: usize| -> usize {
+                if len == t.n {
+                    n2
+                } else if len > t.n {
+                    n2 + (len - t.n).min(n2 + 2)
+                } else if len + 1 == t.n {
+                    n2.saturating_sub(1)
+                } else {
+                    len.min(n2.saturating_sub(2))
+                }
+            };
+            let mut c = t.clone();
+            c.n = n2;
+            let mut changed = false;
+            for g in c.segments.iter_mut() {
+                let want = fit(g.bytes.len()).max(1);
+                if want < g.bytes.len() {
+                    let cut = g.bytes.len() - want;
+                    let at = (g.bytes.len() - 1 - cut) / 2;
+                    g.bytes.drain(at..at + cut);
+                    g.expect = None;
+                    changed = true;
+                }
+            }
+            let want = fit(c.tail.len());
+            if want < c.tail.len() {
+                c.tail.truncate(want);
+                changed = true;
+            }
+            if changed {
+                c.chunks = match &c.chunks {
+                    Chunks::AllCompositions => Chunks::AllCompositions,
+                    Chunks::List(l) if l.len() <= 1 => Chunks::List(vec![]),
+                    // keep the shape of the chunking: same number of roughly equal chunks
+                    Chunks::List(l) => {
+                        let total = c.stream().len();
+                        let k = l.iter().filter(|x| **x > 0).count().max(1);
+                        Chunks::List(vec![total.div_ceil(k).max(1); k])
+                    }
+                };
+                out.push(c);
+            }
+        }
     }
     if t.borrowed {
         let mut c = t.clone();
